@@ -223,7 +223,7 @@ def bdr_run(eng, IM, name, piece_idx, level, fail, concrete=None):
         eng.assume(z3.And(q.z3() * (2**level) == z3.ToReal(k), k >= 0, k < 2**level))
         q0, q1 = q, q + Fraction(1, 2**level)
         orient = eng.choice(2)
-        form = eng.choice(3)
+        form = eng.choice(4)
     # callers obtain the end points from the boundary parametrisation in double arithmetic, i.e. only to within
     # rounding: the running coordinate of each end point carries an arbitrary perturbation |delta| <= 1e-15 * unit
     # (the coordinate that is constant along the side is exact, as it is for gamma of a straight side)
@@ -254,6 +254,19 @@ def bdr_run(eng, IM, name, piece_idx, level, fail, concrete=None):
             return tuple(v)
         if form == 1:
             return list(v)
+        if form == 3:
+            # plain Python numbers the way a user types a corner: (1, 0) - integers where the value is integral
+            def plain(c):
+                if isinstance(c, SR):
+                    if not c.is_const():
+                        # the symbolic position may be a corner: fork on it (k = 0 / k = 2^l - 1)
+                        for cand in sorted({float(p0[0]), float(p0[1]), float(p0[0] + d[0] * ln), float(p0[1] + d[1] * ln)}):
+                            if cand.is_integer() and bool(c == int(cand)):
+                                return int(cand)
+                        return c
+                    c = c.const_value()
+                return int(c) if float(c).is_integer() else c
+            return tuple(plain(c) for c in v)
         return np.array([[v[0]], [v[1]]], dtype=object if any(isinstance(c, SR) for c in v) else float)
 
     elem = mesh.refine_msh_bdr(fmt(a), fmt(b))
@@ -439,7 +452,7 @@ def run(out):
     for c, r in zip(cases, results):
         report.merge_worker(out, r, part='%s %s' % (c[0], c[1]))
     out.bounds = dict(history_depth=depth, shapes=list(SHAPES), unit='symbolic s > 0',
-                      boundary_level_max=lmax, k='symbolic integer in [0, 2^l)', orientations=2, input_forms=3,
+                      boundary_level_max=lmax, k='symbolic integer in [0, 2^l)', orientations=2, input_forms=4,
                       end_point_perturbation='|delta| <= 1e-15 * unit on the running coordinate of each non-corner end point, at segment levels %r' % (PERTURBED_LEVELS, ))
     out.outside = ['refinement sequences longer than the stated depth', 'segment levels above the stated maximum '
                    '(the property goes to 10)', 'floating-point rounding of segment end points (reals)']
